@@ -1,5 +1,6 @@
 import PtnModel.Model.MPSSvd
 import PtnModel.Model.Operation
+import PtnModel.Model.Evolution
 /-!
 # Operation histories (C02, C19)
 
@@ -22,6 +23,17 @@ structure StepKernels (α ρ : Type) where
   svd : MPS.SvdKernels α ρ
   dabs : α → ρ
   divR : α → ρ → α
+  -- additional kernels of TDVP / DMRG (`Model/Evolution.lean`)
+  dsqrt : ρ → ρ
+  cnorm : List α → ρ
+  deigh : List ρ → List ρ → List ρ × Mat ρ
+  dexp : α → α
+  dexpm : Mat α → Mat α
+  half : α
+
+/-- the kernels of `Model/Evolution.lean` (QR and SVD kernels are shared with the MPS methods) -/
+def StepKernels.evo {α ρ : Type} (k : StepKernels α ρ) : Evo.EvoKernels α ρ :=
+  ⟨k.dqr, k.svd, k.dsqrt, k.cnorm, k.deigh, k.dexp, k.dexpm, k.half⟩
 
 inductive HOp (α ρ : Type) where
   | orthoMps (i : Nat) (left : Bool)
@@ -33,20 +45,26 @@ inductive HOp (α ρ : Type) where
   | apply (i j : Nat)            -- apply_operator(pool[i] : MPO, pool[j] : MPS)
   | zeroQ (i : Nat)              -- zero_qnumbers()
   | copy (i : Nat)               -- deep copy (harness helper)
+  | fromVector (d nsites : Nat) (v : List α) (tol : ρ)            -- MPS.from_vector(d, nsites, v, tol): appends
+  | tdvp1 (iH iψ : Nat) (dt : α) (numsteps numiter : Nat)         -- integrate_local_singlesite(pool[iH], pool[iψ], …)
+  | tdvp2 (iH iψ : Nat) (dt : α) (numsteps numiter : Nat) (tol : ρ)
+  | dmrg1 (iH iψ : Nat) (numsweeps numiter : Nat)                 -- calculate_ground_state_local_singlesite
+  | dmrg2 (iH iψ : Nat) (numsweeps numiter : Nat) (tol : ρ)
 
 variable {α ρ : Type}
 
 /-- slot overwritten by an operation (`none`: a new object is appended) -/
 def HOp.target : HOp α ρ → Option Nat
   | .orthoMps i _ | .orthoMpo i _ | .compress i _ _ | .zeroQ i => some i
+  | .tdvp1 _ i _ _ _ | .tdvp2 _ i _ _ _ _ | .dmrg1 _ i _ _ | .dmrg2 _ i _ _ _ => some i
   | _ => none
 
 def Obj.zeroQ : Obj α → Obj α
   | .mps ψ => .mps { ψ with qd := ψ.qd.map fun _ => 0, qD := ψ.qD.map fun q => q.map fun _ => 0 }
   | .mpo o => .mpo { o with qd := o.qd.map fun _ => 0, qD := o.qD.map fun q => q.map fun _ => 0 }
 
-variable [OfNat α 0] [OfNat α 1] [Add α] [Mul α] [Neg α] [DecidableEq α] [HasConj α]
-  [RealLike ρ α] [OfNat ρ 0] [OfNat ρ 1] [Add ρ] [Mul ρ] [Div ρ] [Neg ρ] [LT ρ] [DecidableEq ρ] [DecidableLT ρ]
+variable [OfNat α 0] [OfNat α 1] [Add α] [Mul α] [Sub α] [Neg α] [Div α] [DecidableEq α] [HasConj α]
+  [RealLike ρ α] [OfNat ρ 0] [OfNat ρ 1] [Add ρ] [Mul ρ] [Div ρ] [Neg ρ] [NatCast ρ] [LT ρ] [DecidableEq ρ] [DecidableLT ρ]
 
 /-- result of one step: the new pool and the scalar outputs of the call (norm, scale) -/
 def step (k : StepKernels α ρ) (p : Pool α) (op : HOp α ρ) : Except Err (Pool α × List ρ) :=
@@ -101,6 +119,33 @@ def step (k : StepKernels α ρ) (p : Pool α) (op : HOp α ρ) : Except Err (Po
     match p[i]? with
     | some o => .ok (p ++ [o], [])
     | none => .error .index
+  | .fromVector d nsites v tol => do
+    let r ← MPS.fromVector k.svd d nsites v tol
+    return (p ++ [.mps r], [])
+  | .tdvp1 iH iψ dt numsteps numiter =>
+    match p[iH]?, p[iψ]? with
+    | some (.mpo H), some (.mps ψ) => do
+      let (ψ', nrm) ← Evo.integrateLocalSinglesite k.evo H ψ dt numsteps numiter
+      return (p.set iψ (.mps ψ'), [nrm])
+    | _, _ => .error .type
+  | .tdvp2 iH iψ dt numsteps numiter tol =>
+    match p[iH]?, p[iψ]? with
+    | some (.mpo H), some (.mps ψ) => do
+      let (ψ', nrm) ← Evo.integrateLocalTwosite k.evo H ψ dt numsteps numiter tol
+      return (p.set iψ (.mps ψ'), [nrm])
+    | _, _ => .error .type
+  | .dmrg1 iH iψ numsweeps numiter =>
+    match p[iH]?, p[iψ]? with
+    | some (.mpo H), some (.mps ψ) => do
+      let (ψ', en) ← Evo.dmrgSinglesite k.evo H ψ numsweeps numiter
+      return (p.set iψ (.mps ψ'), en)
+    | _, _ => .error .type
+  | .dmrg2 iH iψ numsweeps numiter tol =>
+    match p[iH]?, p[iψ]? with
+    | some (.mpo H), some (.mps ψ) => do
+      let (ψ', en) ← Evo.dmrgTwosite k.evo H ψ numsweeps numiter tol
+      return (p.set iψ (.mps ψ'), en)
+    | _, _ => .error .type
 
 def Obj.wellFormed : Obj α → Bool
   | .mps ψ => ψ.wellFormed
